@@ -399,7 +399,46 @@ def h_conv2d_linear_cost_vars(H, kind, bias, discrete):
                  H.eq(H.scalar(va[kout]), H.sum([H.abs(x) for x in H.elements(a)[:2]]) + 1))
 
 
-PROPERTY = {}
+_ENUM = 'kernel sizes 1..9 (quick) / 1..16 (thorough), initial dilation 1..3, stride 1..2, 1..5 output channels, fold_bn / fused / no BatchNorm, bias on/off are enumerated; values are arbitrary reals'
+PROPERTY = {
+    'C08': dict(
+        level='proof',
+        explanation='K1-K5 as post-conditions of the real mask / size / export code for ALL real architectural parameters: >= 1 feature, >= 1 tap, dilation >= 1, '
+                    'frozen maskers keep full size, exported module sizes == summary(), export defined (no exception path). ' + _ENUM,
+        not_decided=['which width groups are frozen (build_shared_features_map: torch.fx / networkx pass) - the frozen maskers themselves are under contract',
+                     'that whole exported architectures run on inputs of the original shape (composition over the graph)',
+                     'float32 absorption for huge parameter values such as 1e30 (A-real)'],
+        assumptions=['single-node fx bookkeeping (get_submodule / add_submodule / inserting_before / call_module) as specified in pyvc/torchlib.py'],
+    ),
+    'C01': dict(
+        level='other',
+        explanation='per layer: the chain producer -> [causal pad] -> searchable layer is exported and the exported chain is shown equal to the masked chain on '
+                    'EVERY input (symbolic input, weights, BatchNorm statistics) for every reachable mask pattern; dead channels exactly zero. ' + _ENUM,
+        not_decided=['composition of the per-layer equivalences over every architecture of the grammar (needs the fx passes: which calculator / shared masker a '
+                     'layer is wired to - hypotheses H-dw, H-share, H-calc)', 'residual add / concat topologies beyond the calculator contracts of C09',
+                     'float round-off (A-real): equality is of real-valued terms'],
+        assumptions=['the re-created BatchNorm is given the statistics of the one it replaces (the statement\'s exemption)',
+                     'single-node fx bookkeeping as specified in pyvc/torchlib.py', 'input length = receptive field + 1 (2 for stride 2)'],
+    ),
+    'C04': dict(
+        level='other',
+        explanation='per layer: what get_modified_vars shows the cost function (discrete = exported sizes, names, untouched keys), params of the exported layer = '
+                    'numel(weight) + numel(bias), open masks => continuous = discrete = original sizes for every kernel size 1..16(32); wrapper level '
+                    '(contracts/wrappers.py): PIT._get_single_cost sums the right layers and invocations for shared / per-invocation metrics, full_cost, dict specs',
+        not_decided=['architectures (concat / flatten / repeated-layer topologies) beyond the calculator contracts of C09', 'output shapes are read from tensor_meta '
+                     'as the code does (hypothesis H-shape)', 'ops / gap8 metrics through the PIT layers (their own clauses are under C16)'],
+        assumptions=['convert() under an assumed contract (returns the module tree and the two leaf lists)'],
+    ),
+    'C12': dict(
+        level='other',
+        explanation='composed from: non-negativity / definedness / monotonicity of every cost function (C16 harnesses), effective sizes non-negative and monotone '
+                    'in the magnitude of every mask parameter in both cost modes, open masks = original sizes, cost reads no weights (the probing cost '
+                    'specifications of contracts/wrappers.py receive only hyper-parameters), pass-through backward bodies of every straight-through function',
+        not_decided=['every clause about .grad (finite, non-zero for trainable elements, none to weights): autograd is trusted, only the hand-written backward '
+                     'bodies are under contract', 'ODiMO parallel-accelerator reduction', 'GateSTE / PACTActSTE backward (not pass-through by design)'],
+        assumptions=[],
+    ),
+}
 
 _P = 'plinio/methods/pit/nn/'
 _F1 = [_P + 'conv1d.py::PITConv1d.' + f for f in ('__init__', 'forward', 'export', 'summary', '_features_mask', '_time_mask', 'features_mask', 'time_mask',
